@@ -220,7 +220,18 @@ class Executor2(Executor):
 
     def st_Assert(self, s, st):
         if self.lenient:
-            # asserts over abstracted values are not checked (listed as an assumption)
+            # an assert over modelled values is an obligation (no AssertionError may escape);
+            # asserts that involve abstracted (opaque) values are not checked (stated assumption)
+            probe = st.copy()
+            try:
+                c = self.truthy(self.ev(s.test, probe))
+            except Unsupported:
+                return [st], []
+            if _mentions_opaque(c):
+                return [st], []
+            st.heap, st.pc = probe.heap, probe.pc
+            self.oblige(st, c, "assert", s.lineno, kind="assert")
+            st.assume(c)
             return [st], []
         return Executor.st_Assert(self, s, st)
 
@@ -603,3 +614,20 @@ class Executor2(Executor):
                         if key.endswith("." + attr):
                             keys.add(key)
         return keys
+
+
+def _mentions_opaque(term):
+    seen = set()
+    todo = [term]
+    while todo:
+        t = todo.pop()
+        if t.get_id() in seen:
+            continue
+        seen.add(t.get_id())
+        if z3.is_const(t) and t.decl().kind() == z3.Z3_OP_UNINTERPRETED and str(t.decl().name()).startswith(("opq", "len!")):
+            return True
+        if z3.is_quantifier(t):
+            todo.append(t.body())
+        else:
+            todo.extend(t.children())
+    return False
